@@ -263,10 +263,13 @@ def defects(rng, rows, model):
             yield "broken-property-value:%s" % prop, rows[:1] + [["D", prop, bad]] + [r for r in rows[1:] if not (r[0] == "D" and r[1].lower() == prop.lower())], 2, None
     if kind in ("delimited", "fixed"):
         base = [r for r in rows if not (r[0] == "D" and r[1] in ("Decimal separator", "Thousands separator"))]
-        yield "contradicting-separators", base[:1] + [["D", "Decimal separator", ","], ["D", "Thousands separator", ","]] + base[1:], None, None
+        # (two rows that contradict each other: the rejection names one of the two)
+        yield "contradicting-separators", base[:1] + [["D", "Decimal separator", ","], ["D", "Thousands separator", ","]] + base[1:], (2, 3), None
+        # (one row that contradicts a default)
+        yield "contradicting-separators:default", base[:1] + [["D", "Thousands separator", "."]] + base[1:], 2, None
     if kind == "delimited":
         base = [r for r in rows if not (r[0] == "D" and r[1] in ("Item delimiter", "Quote character", "Escape character"))]
-        yield "delimiter-equals-quote", base[:1] + [["D", "Item delimiter", "'"], ["D", "Quote character", "'"]] + base[1:], None, None
+        yield "delimiter-equals-quote", base[:1] + [["D", "Item delimiter", "'"], ["D", "Quote character", "'"]] + base[1:], (2, 3), None
     # --- field rows (at every field row)
     for n, i in enumerate(f_index):
         for name, bad in (("empty", ""), ("blank", "  "), ("digit-first", "1abc"), ("underscore-first", "_abc"), ("non-ascii", "größe"), ("non-ascii-first", "ärger"), ("non-ascii-first-greek", "Ωmega"), ("non-ascii-only", "ß"), ("non-ascii-last", "cafe\u0301"), ("fullwidth-digit", "a１"),
@@ -416,7 +419,7 @@ def check_accept(ctx, rows, what, base_signature=None, base_rows=None):
 def check_reject(ctx, name, rows, line):
     from cutplace import errors
 
-    case = {"cid_rows": rows, "expect": "refused at row %s" % line, "defect": name}
+    case = {"cid_rows": rows, "expect": "refused at row %s" % (line,), "defect": name}
     ctx.case(case, True)
     ctx.count("reject.judged")
     family = name.split(":")[0]
@@ -426,12 +429,14 @@ def check_reject(ctx, name, rows, line):
         text = str(error)
         if line is not None:
             ctx.count("reject.row-judged")
-            if "R%dC" % line not in text and "(R%d" % line not in text:
-                ctx.violation("C09:rejection-does-not-name-row:%s" % name, case, "rejection text does not name the offending row", expected="R%d" % line, observed=text)
+            lines = line if isinstance(line, tuple) else (line,)
+            if not any("R%dC" % one in text or "(R%d" % one in text for one in lines):
+                ctx.violation("C09:rejection-does-not-name-row:%s" % name, case, "rejection text does not name the offending row",
+                              expected=" or ".join("R%d" % one for one in lines), observed=text)
         return
     except errors.CutplaceError as error:
         ctx.violation("C09:rejected-with-non-interface-error:%s:%s" % (name, type(error).__name__), case,
-                      "defective CID was rejected with another error than an interface error", expected="InterfaceError naming row %s" % line, observed=error)
+                      "defective CID was rejected with another error than an interface error", expected="InterfaceError naming row %s" % (line,), observed=error)
         return
     except Exception as error:
         mod, fn = core.innermost_cutplace_frame(error)
@@ -515,10 +520,10 @@ def run(ctx):
                 continue
             if line is not None and rng.random() < 0.5:
                 # comment and empty rows in front of the defective row count as rows
-                pos = rng.randrange(0, line)
+                pos = rng.randrange(0, min(line) if isinstance(line, tuple) else line)
                 filler = rng.choice([[[]], [["", "comment"]], [[], ["", "comment"]], [[""], [], []]])
                 bad_rows = bad_rows[:pos] + filler + bad_rows[pos:]
-                line += len(filler)
+                line = tuple(one + len(filler) for one in line) if isinstance(line, tuple) else line + len(filler)
             check_reject(ctx, name, bad_rows, line)
             if name.startswith("example-rejected-by-own-field") or name == "field-after-check":
                 # ... and when the rows are added one by one through the API, where the example is judged at once
@@ -527,13 +532,13 @@ def run(ctx):
 
                 try:
                     load_through_api(bad_rows)
-                    ctx.violation("C09:defective-cid-accepted:%s:through-the-api" % name, {"cid_rows": bad_rows, "expect": "refused at row %s" % line, "defect": name + ":through-the-api"},
+                    ctx.violation("C09:defective-cid-accepted:%s:through-the-api" % name, {"cid_rows": bad_rows, "expect": "refused at row %s" % (line,), "defect": name + ":through-the-api"},
                                   "a defect that Cid.read refuses (%s) was taken when the rows were added one by one" % name, expected="InterfaceError", observed="accepted")
                 except errors.InterfaceError:
                     pass
                 except Exception as error:
                     mod, fn = core.innermost_cutplace_frame(error)
-                    ctx.violation("C09:crash:%s@%s.%s" % (type(error).__name__, mod, fn), {"cid_rows": bad_rows, "expect": "refused at row %s" % line, "defect": name + ":through-the-api"},
+                    ctx.violation("C09:crash:%s@%s.%s" % (type(error).__name__, mod, fn), {"cid_rows": bad_rows, "expect": "refused at row %s" % (line,), "defect": name + ":through-the-api"},
                                   "adding the rows one by one ended in an internal error", observed=error)
 
 
